@@ -134,11 +134,18 @@ pub fn valid_case(cx: &mut Ctx, n: u64, case: &Value) {
                 variants.push(("two empty members first", vec![empty.clone(), empty.clone()].into_iter().chain(ms.iter().cloned()).collect()));
             }
             for (what, members) in variants {
+                // positions of the non-empty members: a reported pair must name exactly two of them (the catalogue members are
+                // individually valid, so no per-member error is expected)
+                let real: Vec<i64> = members.iter().enumerate().filter(|(_, p)| !p.exterior().0.is_empty()).map(|(i, _)| i as i64).collect();
+                let names_real_members = |e: &str| -> bool {
+                    let idx: Vec<i64> = e.split("GeometryIndex(").skip(1).filter_map(|t| t.split(')').next().and_then(|n| n.trim().parse().ok())).collect();
+                    !idx.is_empty() && idx.iter().all(|i| real.contains(i)) && (idx.len() < 2 || idx[0] != idx[1])
+                };
                 let v = geo::MultiPolygon::new(members);
                 let r = guard(|| (v.is_valid(), v.validation_errors().iter().map(|e| format!("{e:?}")).collect::<Vec<_>>()));
                 match r {
                     Ok((ok, errs)) if ok == want && errs.is_empty() == want
-                        && errs.iter().all(|e| (e.starts_with("ElementsOverlaps") && case["overlap"].as_bool().unwrap()) || (e.starts_with("ElementsTouchOnALine") && case["online"].as_bool().unwrap())) => cx.ok("multipolygon_with_empty_member"),
+                        && errs.iter().all(|e| names_real_members(e) && ((e.starts_with("ElementsOverlaps") && case["overlap"].as_bool().unwrap()) || (e.starts_with("ElementsTouchOnALine") && case["online"].as_bool().unwrap()))) => cx.ok("multipolygon_with_empty_member"),
                     other => cx.bad("C14", "multipolygon_with_empty_member", case, json!({"what": what, "got": format!("{other:?}"), "want_valid": want})),
                 }
             }
